@@ -120,6 +120,86 @@ def chk_orientation(inp):
         return bad("lensAgainst differs from oneStepFresnel of the lens-phased field", relerr(lens, one_l), 0.0)
 
 
+def beam(N, d, w0, wvl, z, x0=0., y0=0.):
+    """paraxial Gaussian beam exp(-r^2/w0^2) after a distance z (width, curvature and Gouy phase in one complex expression), on the grid whose
+    origin is sample N//2: U(r, z) = w0^2 / W * exp(-r^2 / W), W = w0^2 + i wvl z / pi"""
+    c = (numpy.arange(N) - N // 2) * d
+    X, Y = numpy.meshgrid(c, c)
+    W = w0 ** 2 + 1j * wvl * z / numpy.pi
+    return (w0 ** 2 / W) * numpy.exp(-((X - x0) ** 2 + (Y - y0) ** 2) / W)
+
+
+def chk_gaussian(inp):
+    """every propagator reproduces the analytic Gaussian-beam solution (complex field: width, curvature, Gouy phase), for even and odd grid sizes"""
+    wvl, d = 1e-6, 1e-4
+    for N in (96, 97, 128, 127):
+        w0 = N * d / 16.
+        for z in (1.0 * N * d * d / wvl, -0.7 * N * d * d / wvl):     # (output windows several beam widths wide: aliasing below 1e-9)
+            for (x0, y0) in ((0., 0.), (2.5 * d, -4 * d)):
+                U0 = beam(N, d, w0, wvl, 0., x0, y0)
+                for m in (1.0, 1.5, 0.75):
+                    got = OP.angularSpectrum(U0, wvl, d, m * d, z)
+                    want = beam(N, m * d, w0, wvl, z, x0, y0)
+                    e = abs(got - want).max() / abs(want).max()
+                    if not e <= 1e-6:
+                        return bad("angularSpectrum (N=%d, magnification %g, z=%g) does not reproduce the analytic Gaussian beam (complex field, no free phase)" % (N, m, z), float(e), 0.0)
+                if z > 0:
+                    d2 = wvl * z / (N * d)
+                    got = OP.oneStepFresnel(U0, wvl, d, z)
+                    want = beam(N, d2, w0, wvl, z, x0, y0)
+                    e = abs(got - want).max() / abs(want).max()
+                    if not e <= 1e-6:
+                        return bad("oneStepFresnel (N=%d, z=%g) does not reproduce the analytic Gaussian beam on its output grid" % (N, z), float(e), 0.0)
+                    if x0 == 0:
+                        got = OP.twoStepFresnel(U0, wvl, d, 1.5 * d, z)
+                        want = beam(N, 1.5 * d, w0, wvl, z)
+                        e = abs(got - want).max() / abs(want).max()
+                        if not e <= 1e-6:
+                            return bad("twoStepFresnel (N=%d, magnification 1.5, z=%g) does not reproduce the analytic (on-axis) Gaussian beam" % (N, z), float(e), 0.0)
+    # lens to focal plane: the focal-plane field of a Gaussian at the lens is the Gaussian of width wvl f / (pi w0) (times the Fresnel prefactor)
+    for N in (96, 97):
+        w0, f = N * d / 16., 0.5 * N * d * d / wvl
+        U0 = beam(N, d, w0, wvl, 0.)
+        got = OP.lensAgainst(U0, wvl, d, f)
+        d2 = wvl * f / (N * d)
+        c = (numpy.arange(N) - N // 2) * d2
+        X, Y = numpy.meshgrid(c, c)
+        wf = wvl * f / (numpy.pi * w0)
+        want = (numpy.pi * w0 ** 2) / (1j * wvl * f) * numpy.exp(1j * numpy.pi / (wvl * f) * (X ** 2 + Y ** 2)) * numpy.exp(-(X ** 2 + Y ** 2) / wf ** 2)
+        e = abs(got - want).max() / abs(want).max()
+        if not e <= 1e-6:
+            return bad("lensAgainst (N=%d) does not give the focal-plane Gaussian of width wvl f / (pi w0)" % N, float(e), 0.0)
+
+
+def chk_airy(inp):
+    """focal-plane field of a uniformly lit circular aperture: the Airy pattern (peak = aperture area / (wvl f), intensity (2 J1(x)/x)^2, x = pi D r / (wvl f))"""
+    from scipy.special import j1
+    wvl, d = 1e-6, 1e-4
+    for N, R in ((256, 40.), (255, 40.), (192, 30.5)):
+        c = (numpy.arange(N) - N // 2) * d
+        X, Y = numpy.meshgrid(c, c)
+        ap = ((X ** 2 + Y ** 2) <= (R * d) ** 2).astype(complex)
+        f = 2.0 * N * d * d / wvl
+        d2 = wvl * f / (N * d)
+        got = OP.lensAgainst(ap, wvl, d, f)
+        c2 = (numpy.arange(N) - N // 2) * d2
+        X2, Y2 = numpy.meshgrid(c2, c2)
+        r = numpy.sqrt(X2 ** 2 + Y2 ** 2)
+        x = numpy.pi * (2 * R * d) * r / (wvl * f)
+        x[N // 2, N // 2] = 1.
+        airy = 2 * j1(x) / x
+        airy[N // 2, N // 2] = 1.
+        area = ap.real.sum() * d * d
+        want = area / (1j * wvl * f) * numpy.exp(1j * numpy.pi / (wvl * f) * r ** 2) * airy
+        e = abs(got - want).max() / abs(want).max()
+        # (a pixelated disc is not a disc: the residual is the boundary error, ~ 1 / R relative to the peak in the side lobes; the centre is exact)
+        if not (e <= 2.5 / R and abs(got[N // 2, N // 2] - want[N // 2, N // 2]) <= 1e-9 * abs(want).max()):
+            return bad("lensAgainst of a circular aperture (N=%d, radius %g px) is not the Airy pattern centred on sample N//2" % (N, R), [float(e), float(abs(got[N // 2, N // 2] - want[N // 2, N // 2]) / abs(want).max())], "< %.3g, < 1e-9" % (2.5 / R))
+        k = numpy.unravel_index(numpy.argmax(abs(got)), got.shape)
+        if tuple(int(v) for v in k) != (N // 2, N // 2):
+            return bad("Airy pattern does not peak on the axis sample (N=%d)" % N, [int(v) for v in k], [N // 2, N // 2])
+
+
 def fam(tier, seed):
     for N in (2, 4, 8, 16):
         for (z1, z2) in ((1.2, -0.7), (3.0, 5.0), (-2.0, -1.0)):
@@ -128,6 +208,6 @@ def fam(tier, seed):
 
 
 CLAUSES = {"group.zero": (chk_zero, fam), "group.additive": (chk_additive, fam), "group.magnification": (chk_mag, fam), "agree.twostep-chain": (chk_chain, fam),
-           "orientation": (chk_orientation, lambda t, s: [None])}
+           "orientation": (chk_orientation, lambda t, s: [None]), "gaussian": (chk_gaussian, lambda t, s: [None]), "airy": (chk_airy, lambda t, s: [None])}
 if __name__ == "__main__":
     main(CLAUSES)
